@@ -47,7 +47,7 @@ struct vf_ghost {
   unsigned io_sqes, cancel_sqes;        /* SQEs taken so far for the transfer / for its cancellation */
   _Bool io_inflight, cancel_inflight;   /* taken and its CQE not yet consumed by the loop */
   _Bool io_dispatched; int cqe_res;     /* the transfer's CQE has been consumed: its res (stored in result_ by the loop) */
-  unsigned submit_calls;
+  unsigned submit_calls; int force_room;        /* harness: -1 = try_submit_io chooses, 0 = no ring space, 1 = room */
   /* the context's queues */
   _Bool op_queued, cop_queued;          /* the item is in the remote / pending-I/O / local queue */
   unsigned sched_remote, sched_pending; exec_fn sched_fn;       /* the operation's own item handed to the remote / pending-I/O queue by the verified call */
@@ -147,6 +147,9 @@ static void env_cancel(void) {
   }
 }
 #ifdef VF_EARLY_STOP
+#define VF_EARLY_STATE        /* start_io with a stop request that is already there; implies the early states below */
+#endif
+#ifdef VF_EARLY_STATE
 #define STOP_MAY_ARRIVE 1
 #else
 #define STOP_MAY_ARRIVE (G.io_sqes >= 1)      /* quick tier: a stop request is delivered only once the operation's own SQE exists (see spec: assumptions) */
@@ -174,7 +177,7 @@ static void WR_cancel_populate(struct io_op* self, struct io_uring_sqe* sqe_p);
 static _Bool EV_try_submit_io(struct io_op* self, int kind) {
   VF_P(self == &S && !G.dead && G.on_io_thread, "try_submit_io: on the I/O thread, for the live operation");
   G.submit_calls++;
-  _Bool room = VF_nondet_bool() ? 1 : 0;
+  _Bool room = G.force_room < 0 ? (VF_nondet_bool() ? 1 : 0) : (G.force_room ? 1 : 0);
   unsigned calls = 0;
   if (room) {
     memset(&SQE, 0, sizeof(SQE));
@@ -306,7 +309,7 @@ static void EV_set_done(struct io_op* self) {
 static int cqe_res_any(void) { int r = VF_nondet_int(); __CPROVER_assume(r > -4096); return r; }
 static void h_fresh(int fam) {
   G.fam = fam; G.role = ROLE_IO; G.path = PATH_NONE; G.on_io_thread = 1; G.err = VF_nondet_int();
-  G.io_sqes = 0; G.cancel_sqes = 0; G.io_inflight = 0; G.cancel_inflight = 0; G.io_dispatched = 0; G.cqe_res = 0; G.submit_calls = 0;
+  G.io_sqes = 0; G.cancel_sqes = 0; G.io_inflight = 0; G.cancel_inflight = 0; G.io_dispatched = 0; G.cqe_res = 0; G.submit_calls = 0; G.force_room = -1;
   G.op_queued = 0; G.cop_queued = 0; G.sched_remote = 0; G.sched_pending = 0; G.sched_fn = NULL; G.cop_remote = 0; G.cop_pending = 0; G.cop_sched_fn = NULL;
   G.cb_state = CB_NONE; G.constructs = 0; G.stop_requested = 0; G.stop_seen = 0; G.cb_fired = 0; G.polls = 0;
   G.cancel_cas = 0; G.cas_old = 0; G.io_subbed = 0; G.cancel_subbed = 0; G.subs = 0; G.sub_old = 0;
@@ -315,11 +318,16 @@ static void h_fresh(int fam) {
   io_op_init(&S);
   S.context_ = &CTX; S.fd_ = VF_nondet_int(); S.offset_ = VF_nondet_i64(); __CPROVER_assume(S.offset_ >= 0); S.buffer_[0].iov_base = (void*)&CTX; S.buffer_[0].iov_len = VF_nondet_size_t(); S.receiver_ = VF_nondet_int(); S.stopCallback_ = VF_nondet_int();
 }
-/* start_io found no ring space earlier: the callback is registered, the item was parked and has now been dequeued for its retry; a stop request may have arrived meanwhile */
+/* start_io found no ring space earlier (the REAL start_io is run with try_submit_io reporting "no room"): the item was parked and has now been
+ * dequeued for its retry.  Whether a stop callback is registered in this state is the code's decision */
+#if defined(VF_RETRY) || defined(VF_EARLY_STATE)
 static void h_parked(int fam) {
   h_fresh(fam);
-  G.cb_state = CB_CONSTRUCTED; G.constructs = 1; S.cb.base.execute_ = ON_SCHEDULE_FN;
+  G.force_room = 0;
+  if (fam == FAM_RD) { RD_start_io(&S); } else { WR_start_io(&S); }
+  G.force_room = -1; G.submit_calls = 0; G.sched_pending = 0; G.sched_fn = NULL; G.op_queued = 0;     /* dequeued by the pending-I/O loop */
 }
+#endif
 /* the transfer's SQE has been taken: in flight, or its CQE consumed (item in the local queue, or already run and counted) */
 static void h_submitted(int fam) {
   h_fresh(fam);
@@ -331,8 +339,10 @@ static void h_submitted(int fam) {
 }
 /* the state in which the stop callback fires */
 static void h_stoppable(int fam) {
-#ifdef VF_EARLY_STOP
-  if (VF_nondet_bool()) { h_parked(fam); if (VF_nondet_bool()) { G.op_queued = 1; } } else { h_submitted(fam); }
+#ifdef VF_EARLY_STATE
+  /* the callback can also fire while the operation waits for ring space - if start_io has registered it by then */
+  h_parked(fam);
+  if (G.cb_state == CB_CONSTRUCTED && VF_nondet_bool()) { G.op_queued = 1; } else { h_submitted(fam); }
 #else
   h_submitted(fam);
 #endif
@@ -381,7 +391,6 @@ static void stop_canaries(void) {
 static void on_complete_canaries(void) {
   VF_CANARY("after a CQE continuation");
   if (G.completed) { VF_CANARY("the continuation can be the last one"); } else { VF_CANARY("the continuation can leave the completion to the other CQE"); }
-  if (G.completed && G.done && G.cqe_res >= 0) { VF_CANARY("a successful transfer can be reported as done"); }
 }
 
 /* ======================= read_sender::operation ======================= */
@@ -401,7 +410,7 @@ void RD_start_io(struct io_op* self)
 __CPROVER_requires(self == &S && FAM_OK(FAM_RD) && G.on_io_thread && RD_STARTABLE)
 __CPROVER_assigns(S, G, SQE)
 __CPROVER_ensures(G.completed == 0 && !G.dead) /* never completes inline */
-__CPROVER_ensures(G.constructs == 1 && G.cb_state == CB_CONSTRUCTED) /* the stop callback is registered, once */
+__CPROVER_ensures(G.constructs <= 1 && G.cb_state == (G.constructs == 1 ? CB_CONSTRUCTED : CB_NONE) && (G.io_sqes == 1 ==> G.cb_state == CB_CONSTRUCTED)) /* ONE stop callback at most, and it is registered whenever the transfer's SQE is in flight (a stop request then finds something to cancel) */
 __CPROVER_ensures(G.submit_calls >= 1 && (G.io_sqes == 1) != (G.sched_pending == 1)) /* exactly one of: SQE taken | parked for a retry */
 __CPROVER_ensures(G.io_sqes == 1 ==> (G.io_inflight && !G.op_queued && S.cb.base.execute_ == (exec_fn)&RD_on_read_complete)) /* submitted: the CQE will run on_read_complete */
 __CPROVER_ensures(G.io_sqes == 0 ==> (G.op_queued && !G.io_inflight && G.sched_fn == (exec_fn)&RD_on_schedule_complete && S.cb.base.execute_ == (exec_fn)&RD_on_schedule_complete)) /* parked: FIFO retry through on_schedule_complete */
@@ -413,7 +422,7 @@ __CPROVER_ensures(G.sched_pending <= 1 && G.sched_remote == 0 && G.io_sqes <= 1)
 void RD_start(struct io_op* self)
 __CPROVER_requires(self == &S && FAM_OK(FAM_RD) && FRESH)
 __CPROVER_assigns(S, G, SQE)
-__CPROVER_ensures(__CPROVER_old(G.on_io_thread) ==> (G.constructs == 1 && ((G.io_sqes == 1) != (G.sched_pending == 1)) && G.sched_remote == 0))
+__CPROVER_ensures(__CPROVER_old(G.on_io_thread) ==> (G.constructs <= 1 && (G.io_sqes == 1 ==> G.cb_state == CB_CONSTRUCTED) && ((G.io_sqes == 1) != (G.sched_pending == 1)) && G.sched_remote == 0))
 __CPROVER_ensures(!__CPROVER_old(G.on_io_thread) ==> (G.sched_remote == 1 && G.sched_fn == (exec_fn)&RD_on_schedule_complete && G.constructs == 0 && G.io_sqes == 0 && G.submit_calls == 0 \
                    && G.dead && OP_UNTOUCHED)) /* the I/O thread may already be running the operation: not touched after it was published */
 __CPROVER_ensures(G.completed == 0)
@@ -424,7 +433,7 @@ void RD_on_schedule_complete(struct operation_base* op)
 __CPROVER_requires(op == &S.cb.base && FAM_OK(FAM_RD) && G.on_io_thread && RD_STARTABLE)
 __CPROVER_assigns(S, G, SQE)
 __CPROVER_ensures(G.completed == 0 && G.submit_calls >= 1 && ((G.io_sqes == 1) != (G.sched_pending == 1)))
-__CPROVER_ensures(G.constructs == 1 && G.cb_state == CB_CONSTRUCTED) /* C04/C14: however often the submission is retried, ONE stop callback */
+__CPROVER_ensures(G.constructs <= 1 && (G.io_sqes == 1 ==> G.cb_state == CB_CONSTRUCTED)) /* C04/C14: however often the submission is retried, ONE stop callback, registered once the SQE exists */
 /*@BODY RD_on_schedule_complete*/
 
 /* the operation as the stop callback can find it: callback registered, not completed; (quick tier) its SQE has been taken */
@@ -526,7 +535,7 @@ void WR_start_io(struct io_op* self)
 __CPROVER_requires(self == &S && FAM_OK(FAM_WR) && G.on_io_thread && WR_STARTABLE)
 __CPROVER_assigns(S, G, SQE)
 __CPROVER_ensures(G.completed == 0 && !G.dead) /* never completes inline */
-__CPROVER_ensures(G.constructs == 1 && G.cb_state == CB_CONSTRUCTED) /* the stop callback is registered, once */
+__CPROVER_ensures(G.constructs <= 1 && G.cb_state == (G.constructs == 1 ? CB_CONSTRUCTED : CB_NONE) && (G.io_sqes == 1 ==> G.cb_state == CB_CONSTRUCTED)) /* ONE stop callback at most, and it is registered whenever the transfer's SQE is in flight (a stop request then finds something to cancel) */
 __CPROVER_ensures(G.submit_calls >= 1 && (G.io_sqes == 1) != (G.sched_pending == 1)) /* exactly one of: SQE taken | parked for a retry */
 __CPROVER_ensures(G.io_sqes == 1 ==> (G.io_inflight && !G.op_queued && S.cb.base.execute_ == (exec_fn)&WR_on_write_complete)) /* submitted: the CQE will run on_write_complete */
 __CPROVER_ensures(G.io_sqes == 0 ==> (G.op_queued && !G.io_inflight && G.sched_fn == (exec_fn)&WR_on_schedule_complete && S.cb.base.execute_ == (exec_fn)&WR_on_schedule_complete)) /* parked: FIFO retry through on_schedule_complete */
@@ -538,7 +547,7 @@ __CPROVER_ensures(G.sched_pending <= 1 && G.sched_remote == 0 && G.io_sqes <= 1)
 void WR_start(struct io_op* self)
 __CPROVER_requires(self == &S && FAM_OK(FAM_WR) && FRESH)
 __CPROVER_assigns(S, G, SQE)
-__CPROVER_ensures(__CPROVER_old(G.on_io_thread) ==> (G.constructs == 1 && ((G.io_sqes == 1) != (G.sched_pending == 1)) && G.sched_remote == 0))
+__CPROVER_ensures(__CPROVER_old(G.on_io_thread) ==> (G.constructs <= 1 && (G.io_sqes == 1 ==> G.cb_state == CB_CONSTRUCTED) && ((G.io_sqes == 1) != (G.sched_pending == 1)) && G.sched_remote == 0))
 __CPROVER_ensures(!__CPROVER_old(G.on_io_thread) ==> (G.sched_remote == 1 && G.sched_fn == (exec_fn)&WR_on_schedule_complete && G.constructs == 0 && G.io_sqes == 0 && G.submit_calls == 0 \
                    && G.dead && OP_UNTOUCHED)) /* the I/O thread may already be running the operation: not touched after it was published */
 __CPROVER_ensures(G.completed == 0)
@@ -549,7 +558,7 @@ void WR_on_schedule_complete(struct operation_base* op)
 __CPROVER_requires(op == &S.cb.base && FAM_OK(FAM_WR) && G.on_io_thread && WR_STARTABLE)
 __CPROVER_assigns(S, G, SQE)
 __CPROVER_ensures(G.completed == 0 && G.submit_calls >= 1 && ((G.io_sqes == 1) != (G.sched_pending == 1)))
-__CPROVER_ensures(G.constructs == 1 && G.cb_state == CB_CONSTRUCTED) /* C04/C14: however often the submission is retried, ONE stop callback */
+__CPROVER_ensures(G.constructs <= 1 && (G.io_sqes == 1 ==> G.cb_state == CB_CONSTRUCTED)) /* C04/C14: however often the submission is retried, ONE stop callback, registered once the SQE exists */
 /*@BODY WR_on_schedule_complete*/
 
 /* the operation as the stop callback can find it: callback registered, not completed; (quick tier) its SQE has been taken */
